@@ -1,6 +1,7 @@
 /- Driver ops for chains of operations (C07). -/
 import JsonbModel.Driver.SelectOps
 import JsonbModel.Chain
+import JsonbModel.Functions.Text
 
 namespace Jsonb.Driver
 open Jsonb.Wire
@@ -104,7 +105,13 @@ def chainStepD : List String → Option String
          | _, _ => "skip")
       | none => "bad-path"
   | "chaincheck" :: _ => some "ok"
-  | ["deep", _, _, _] => some "ok"     -- C20: stack depth is a property of the real process
+  | ["deep", _, _, _] => some "ok"
+  | ["bigpayload", _] => some "ok"     -- C01: 16 MiB payloads are exercised on the real code only
+  | "tjtext" :: _ => some "ok"
+  | ["fsreject", d] => some <| withDoc d fun b => match T.fromSlice b with
+      | .ok v => "MISMATCH accepted as " ++ showJV v | .err _ => "ok" | .panic _ => "panic" | .fuel => "fuel"
+  | ["kpreject", d] => some <| withDoc d fun b => match parseKeyPaths b with
+      | .ok ps => "MISMATCH accepted as " ++ Canon.showKeyPaths ps | .err _ => "ok" | .panic _ => "panic" | .fuel => "fuel"     -- C20: stack depth is a property of the real process
   | _ => none
 
 end Jsonb.Driver
